@@ -31,6 +31,7 @@ type SiteRule struct {
 	Action string // assert, let, inc, assume, forbid, set
 	Var    string // let name / ghost name
 	Cl     Clause
+	Upd    *GhostUpdate
 }
 
 type Contract struct {
@@ -56,6 +57,14 @@ type Contract struct {
 	EntryLocks []string // lock classes held at entry ("chanHandler.lk")
 	Ghosts     map[string]string // ghost variables local to the function: name -> sort
 	GhostInit  map[string]string
+	Updates    []*GhostUpdate
+}
+
+// GhostUpdate: `update m(key) := value` — effect of a contract on a ghost map (evaluated in the pre-state).
+type GhostUpdate struct {
+	Map      string
+	Key, Val *Expr
+	When     *Expr
 }
 
 type GuardDecl struct {
@@ -85,6 +94,7 @@ type SpecFile struct {
 	Lemmas     []Clause
 	FuncTypes  map[string]*Contract
 	Order      []string
+	GhostMaps  map[string]*Decl
 }
 
 type PredDecl struct {
@@ -96,7 +106,7 @@ type PredDecl struct {
 
 func NewSpecFile() *SpecFile {
 	return &SpecFile{Contracts: map[string]*Contract{}, Preds: map[string]*PredDecl{}, SpecFns: map[string]*Decl{},
-		Properties: map[string]*PropertyDecl{}, Unsync: map[string]string{}, FuncTypes: map[string]*Contract{}}
+		Properties: map[string]*PropertyDecl{}, Unsync: map[string]string{}, FuncTypes: map[string]*Contract{}, GhostMaps: map[string]*Decl{}}
 }
 
 // ---------- lexer ----------
@@ -530,6 +540,16 @@ func (sf *SpecFile) ParseText(path, text string) error {
 			}
 			sf.SpecFns[name] = &Decl{Name: name, Args: args, Res: strings.TrimSpace(rest[j+1:])}
 			cur = nil
+		case "ghostmap":
+			// ghostmap cancelled(U) Bool
+			i := strings.Index(rest, "(")
+			j := strings.Index(rest, ")")
+			if i < 0 || j < i {
+				return errf("bad ghostmap")
+			}
+			name := strings.TrimSpace(rest[:i])
+			sf.GhostMaps[name] = &Decl{Name: name, Args: []string{strings.TrimSpace(rest[i+1 : j])}, Res: strings.TrimSpace(rest[j+1:])}
+			cur = nil
 		case "pred":
 			// pred name(a,b) := expr
 			i := strings.Index(rest, "(")
@@ -673,6 +693,12 @@ func (sf *SpecFile) ParseText(path, text string) error {
 				for _, f := range strings.Split(rest, ",") {
 					cur.EntryLocks = append(cur.EntryLocks, strings.TrimSpace(f))
 				}
+			case "update":
+				u, err := parseUpdate(rest)
+				if err != nil {
+					return errf("%v", err)
+				}
+				cur.Updates = append(cur.Updates, u)
 			case "ghost":
 				// ghost name : Sort [= init]
 				parts := strings.SplitN(rest, ":", 2)
@@ -755,6 +781,12 @@ func parseSiteRule(s string) (*SiteRule, error) {
 			lab = "forbidden:" + r.Sel + ":" + r.Pat
 		}
 		r.Cl = Clause{Label: lab, E: e, Src: "false", Tags: tags}
+	case "update":
+		u, err := parseUpdate(rest)
+		if err != nil {
+			return nil, err
+		}
+		r.Upd = u
 	case "let", "set":
 		k := strings.Index(rest, "=")
 		if k < 0 {
@@ -772,4 +804,38 @@ func parseSiteRule(s string) (*SiteRule, error) {
 		return nil, fmt.Errorf("unknown site action %q in %q", word, s)
 	}
 	return r, nil
+}
+
+// parseUpdate parses: m(keyexpr) := valexpr [when cond]
+func parseUpdate(s string) (*GhostUpdate, error) {
+	i := strings.Index(s, ":=")
+	if i < 0 {
+		return nil, fmt.Errorf("update needs ':=' in %q", s)
+	}
+	lhs := strings.TrimSpace(s[:i])
+	rhs := strings.TrimSpace(s[i+2:])
+	u := &GhostUpdate{}
+	if w := strings.Index(rhs, " when "); w >= 0 {
+		c, err := ParseExpr(strings.TrimSpace(rhs[w+6:]))
+		if err != nil {
+			return nil, err
+		}
+		u.When = c
+		rhs = strings.TrimSpace(rhs[:w])
+	}
+	l, err := ParseExpr(lhs)
+	if err != nil {
+		return nil, err
+	}
+	if l.Op != "call" || len(l.Args) != 1 {
+		return nil, fmt.Errorf("update target must be m(key) in %q", s)
+	}
+	u.Map = l.Name
+	u.Key = l.Args[0]
+	v, err := ParseExpr(rhs)
+	if err != nil {
+		return nil, err
+	}
+	u.Val = v
+	return u, nil
 }
